@@ -297,3 +297,9 @@ Theorem sigmoid_gradient_instance :
     elt gx [1%nat] = 7 * (GradActP.logistic (2 * -4) * (1 - GradActP.logistic (2 * -4))).
 Proof. exact @GradActP.GradActExamples.sigmoid_grad_ex. Qed.
 Print Assumptions sigmoid_gradient_instance.
+
+From Qeep Require Proofs.ConstsP Model.Consts.
+Theorem library_equality_threshold_at_most_1e_240 :
+  ConstsP.dec_le Consts.c_eq_threshold (1, -240)%Z = true.
+Proof. exact ConstsP.threshold_at_most_1e_240. Qed.
+Print Assumptions library_equality_threshold_at_most_1e_240.
